@@ -78,6 +78,7 @@ def write_source(cols: Dict[str, int], path_base: Path, h: int) -> Tuple[str, st
 
 def g_run_space(spec: Dict[str, Any], tmp: Path, h: int) -> Dict[str, Any]:
     blocks = []
+    shared: Dict[Tuple, Tuple[str, str]] = {}     # blocks with identical columns read the SAME file
     for bi, b in enumerate(spec["blocks"]):
         blk: Dict[str, Any] = {"mode": MODE[b["mode"]]}
         ctx = _fn(b["ctx"])
@@ -85,7 +86,10 @@ def g_run_space(spec: Dict[str, Any], tmp: Path, h: int) -> Dict[str, Any]:
             blk["context"] = {k: [val(k, i) for i in range(1, n + 1)] for k, n in ctx.items()}
         s = b["src"]
         if s["mode"] != "none":
-            fmt, name = write_source(_fn(s["cols"]), tmp / f"src{bi}", h + bi)
+            ck = tuple(sorted(_fn(s["cols"]).items()))
+            if ck not in shared:
+                shared[ck] = write_source(_fn(s["cols"]), tmp / f"src{bi}", h + bi)
+            fmt, name = shared[ck]
             src: Dict[str, Any] = {"format": fmt, "path": name, "mode": MODE[s["mode"]]}
             if s["select"] != ["*"]:
                 src["select"] = sorted(s["select"])
